@@ -8,7 +8,9 @@ Inductive lctx :=
 | LSeedWhile | LSeedJit | LSeedFori | LSeedOk | LSeedScanWhile | LJitDet
 (* seed over a higher-order primitive whose eager evaluation runs its body without compiling it
    (jax.checkpoint, custom_jvp, custom_vjp): Seed does not interpret it either *)
-| LSeedEagerHO.
+| LSeedEagerHO
+(* the same, two such primitives deep (checkpoint of custom_jvp of a site, checkpoint of checkpoint ...) *)
+| LSeedEagerHO2.
 
 Inductive outcome := ONone | OLowering | ONotImpl | OOtherErr.
 
@@ -40,6 +42,7 @@ Definition model_ctx (c : lctx) (d : nat) : jx * bool :=   (* program, is it see
   | LGrad | LValueAndGrad => (JGrad b JNil, false)
   | LVmap => (b, false)
   | LSeedWhile | LSeedJit | LSeedEagerHO => (JOther b JNil, true)
+  | LSeedEagerHO2 => (JOther (JOther b JNil) JNil, true)
   | LSeedFori => (JScan 2 b JNil, true)     (* fori_loop with static bounds is a scan *)
   | LSeedScanWhile => (JScan 2 (JOther b JNil) JNil, true)
   | LSeedOk => (b, true)
